@@ -268,7 +268,7 @@ def rule_account(cx, rid_prefix):
     r = cx.rule(f"{rid_prefix}-DISPATCH", "every statement is accounted for: for a corpus of statements (device calls, assignments, blocks; blank/comment/pass/print/string/constant/import lines; Python statements outside the DSL such as continue, del, assert, class, raise, subscript stores, `a; b`) placed before the main loop, in it, in a function and in a nested block, parse() either refuses the script with ValueError or the IR differs from the IR of the script without the statement - only the meaningless kinds may vanish", floor=40)
     items = [("<none>", "")] + [(k, v[0]) for k, v in ACCOUNT_STMTS.items()]
     try:
-        with cf.ProcessPoolExecutor(max_workers=min(8, os.cpu_count() or 2)) as ex:
+        with cf.ProcessPoolExecutor(max_workers=__import__('sa.core', fromlist=['workers']).workers(8)) as ex:
             results = dict(ex.map(_account_worker, items))
     except Exception:
         results = dict(_account_worker(it_) for it_ in items)
@@ -502,7 +502,8 @@ def rule_extent(cx, rid):
     jobs = [(q, tuple(["x = 0", header] + [alphabet[k_] for k_ in seq])) for q, header, alphabet, _h in plan for seq in seqs_of(alphabet)]
     _EXT_CACHE.clear()
     import concurrent.futures as cf
-    workers = min(12, os.cpu_count() or 2)
+    from sa.core import workers as _workers
+    workers = _workers(12)
     chunks = [jobs[i::workers] for i in range(workers)]
     try:
         with cf.ProcessPoolExecutor(max_workers=workers) as ex:
